@@ -31,8 +31,8 @@ ASSUMPTIONS = ["async-broadcast contract (C19/Broadcast.v)",
                "MatchRule::matches is a parameter of the model (property C21); the replay uses the specification's matcher for "
                "type/interface/member rules and compares it with the real one on every message",
                "executor: any runnable task may be picked; max_queued = Some(0) is not used (async_broadcast::broadcast(0) panics)"]
-PARTIAL = ["C20_delivery_partial", "C20_delivery_quiescent", "C20_registered", "C20_share_partial", "C20_progress_partial",
-           "C20_clone_uncounted_refuted", "C20_clone_count_refuted", "C20_async_drop_deadlock_refuted"]
+PARTIAL = ["C20_delivery_partial", "C20_delivery_quiescent", "C20_registered", "C20_share_partial",
+           "C20_clone_uncounted_refuted", "C20_clone_count_refuted"]
 SHARDS = 4
 
 RULESETS = ["A*,A1,A1,B*", "**,A*,A*,A1", "A*,A*,A2,B1", "B*,A1,B*,B2", "**,**,B*,B1", "A1,A*,A1,**"]
@@ -135,13 +135,16 @@ ENABLED = True
 LEVEL = "proof"
 LEVEL_TEXT = ("Theorems in coq/theories/Properties/C20.v over a small-step model of add_match / remove_match / queue_remove_match / "
               "MessageStream (poll, drop, async_drop, clone) / the socket reader's fan-out with back-pressure (C20/Model.v, with the "
-              "broadcast channel of C19/Broadcast.v and MatchRule::matches as a parameter), for every history, scheduler and peer. "
-              "PARTIAL: the faithful model refutes the full statement twice, both confirmed on the real code: (1) MessageStream::clone "
-              "copies the rule without counting it, so dropping a clone unregisters the subscription of the streams still alive; "
-              "(2) async_drop of the last stream of a rule whose queue is full while the socket reader waits on that queue "
-              "deadlocks the connection (remove_match waits for msg_senders held by the reader, which waits for the queue that only the "
-              "stream being dropped could empty). Outside these two classes: delivery equation per live stream, one subscription per "
-              "rule with reference count = number of holders, and the reader is never blocked unless a live stream has unread messages.")
+              "broadcast channel of C19/Broadcast.v and MatchRule::matches as a parameter), for every history, scheduler and peer: the "
+              "delivery equation for every registered stream at every moment (C20_delivery), back-pressure at full strength — the reader "
+              "is only ever blocked behind a stream the application can poll (C20_progress; the async_drop deadlock of the first round "
+              "was repaired by 90a1ccff and the model follows the repaired code). PARTIAL: MessageStream::clone copies the rule without "
+              "counting it, so dropping a clone unregisters the subscription of the streams still alive (C20_clone_uncounted_refuted, "
+              "confirmed on the real code, not repaired). For histories without clone: every stream is registered under its key until "
+              "the reader fails, the delivery equation holds for it, one subscription per rule with reference count = number of "
+              "holders (C20_delivery_partial, C20_registered, C20_share_partial).")
 LEVEL_NOTE = ("Trusted: Coq kernel; the hand-written model (tied to the code by replaying every recorded step of real histories incl. "
               "the complete visible state after every step); the async-broadcast / async-lock / HashMap contracts; harness/hcalls. "
-              "Runtime substrate (executor, wakers) assumed: protocol-level proof.")
+              "Runtime substrate (executor, wakers) assumed: protocol-level proof. The model keeps the labels of the pre-fix async_drop "
+              "(LDropSubs/LDropSender); they are proved unreachable (C20_no_async_drop_in_progress). The Vacant path of add_match is "
+              "modelled as before fix 3703ee13 (no second is_empty check under the msg_senders lock): see docs/C20.md.")
